@@ -5,8 +5,17 @@ def gen_arr(rng, maxops):
     n = rng.choice([3, 8, 20, 60, maxops])
     ops = []
     size = 0
-    mode = rng.choice(["mixed", "front-drain", "grow", "middle"])
+    mode = rng.choice(["mixed", "front-drain", "grow", "middle", "drain-alloc"])
     nextv = 1
+    if mode == "drain-alloc":
+        # fill exactly to an allocation size (4/8/16/32), empty from the front so that the
+        # offset reaches alloc_cnt, then carry on (every later insert used to fail)
+        k = rng.choice([4, 4, 8, 16, 32]) + rng.choice([0, 0, 0, -1, 1])
+        for _ in range(k):
+            ops.append("il:%d" % nextv); nextv += 1
+        ops += ["rf"] * k
+        ops.append(rng.choice(["il:%d", "if:%d", "ia:0:%d"]) % nextv); nextv += 1
+        size = 1
     for _ in range(n):
         r = rng.random()
         if mode == "front-drain" and size > 0 and r < 0.55:
@@ -19,7 +28,9 @@ def gen_arr(rng, maxops):
         elif c < 0.32:
             ops.append("if:%d" % nextv); nextv += 1; size += 1
         elif c < 0.5:
-            idx = rng.randint(0, size + (1 if rng.random() < 0.1 else 0))
+            # boundaries idx = cnt (append) and idx = cnt + 1 (first invalid index)
+            b = rng.random()
+            idx = size if b < 0.12 else size + 1 if b < 0.2 else rng.randint(0, size)
             ops.append("ia:%d:%d" % (idx, nextv)); nextv += 1
             if idx <= size:
                 size += 1
